@@ -57,6 +57,12 @@ def replay(args):
     return 0
 
 
+def workdir():
+    d = os.path.join(core.OUT, '.work')
+    os.makedirs(d, exist_ok=True)
+    return d
+
+
 def check(args):
     module = load_module(args.id)
     tier = args.tier
@@ -66,7 +72,7 @@ def check(args):
     if args.time_budget:
         tb = args.time_budget
     hard = (tb * 3 + 120) if tb else getattr(module, 'HARD_TIMEOUT', {}).get(tier, 3600)
-    work = tempfile.mkdtemp(prefix='%s-' % module.PID, dir=os.path.join(core.HOME, '.work'))
+    work = tempfile.mkdtemp(prefix='%s-' % module.PID, dir=workdir())
     procs = []
     for i in range(nshards):
         part = os.path.join(work, 'part%d.json' % i)
@@ -126,7 +132,7 @@ def check(args):
     nviol = len(merged['violations'])
     print('%s %s seed=%d: cases=%d distinct_nontrivial=%d monitor_events=%d skipped=%d violations=%d known=%d wall=%.1fs -> %s' % (
         module.PID, tier, args.seed, merged['evaluations'], len(merged['sigs']), sum(merged['hooks'].values()),
-        sum(merged['skipped'].values()), nviol, len(merged['known']), wall, os.path.relpath(path, core.HOME)))
+        sum(merged['skipped'].values()), nviol, len(merged['known']), wall, os.path.relpath(path, core.OUT)))
     try:
         import shutil
         shutil.rmtree(work)
@@ -141,6 +147,10 @@ def check(args):
 
 
 def main(argv=None):
+    argv = sys.argv[1:] if argv is None else argv
+    if argv and argv[0] == 'selftest':
+        from . import selftest
+        return selftest.main(argv[1:])
     ap = argparse.ArgumentParser(prog='pv')
     sub = ap.add_subparsers(dest='cmd', required=True)
     c = sub.add_parser('check')
@@ -179,4 +189,13 @@ def main(argv=None):
 
 
 if __name__ == '__main__':
-    sys.exit(main())
+    try:
+        rc = main()
+    except SystemExit:
+        raise
+    except BaseException:  # a crash of the harness must never look like a verdict (exit 1 is reserved for VIOLATION)
+        import traceback
+        traceback.print_exc()
+        print('HARNESS-ERROR %s' % ' '.join(sys.argv[1:]))
+        rc = 3
+    sys.exit(rc)
